@@ -1,5 +1,5 @@
 (** C08 — pinned statements only.  [None] = the Rust code would panic; hashes are abstract. *)
-From Astria Require Import Merkle.MerkleModel Merkle.MerkleSpec Merkle.MerkleSound Merkle.MerkleTotal Merkle.MerkleRootFull.
+From Astria Require Import Merkle.MerkleModel Merkle.MerkleSpec Merkle.MerkleSound Merkle.MerkleTotal Merkle.MerkleRootFull Kernels.KernelEqMerkle.
 
 (** A proof verifies only for the leaf it was built for (else an explicit hash collision). *)
 Theorem C08_sound_leaf : forall (D : Type) (nodeH : D -> D -> D) (eqD : D -> D -> bool),
@@ -56,3 +56,25 @@ Theorem C08_proof_complete : forall (D : Type) (nodeH : D -> D -> D) (emptyH zer
             reconstruct_root D nodeH p d = Some (mth D nodeH emptyH ls).
 Proof. exact proof_complete. Qed.
 Print Assumptions C08_proof_complete.
+
+(** Tie to the source: the index kernels regenerated from crates/astria-merkle/src/lib.rs on every
+    run (tools/rs2v.py -> Kernels/KMerkle.v) are equal to the model's functions the theorems above
+    are about. *)
+Theorem C08_kernels_tied :
+  (forall i, KMerkle.perfect_parent i = MerkleModel.perfect_parent i) /\
+  (forall p, KMerkle.perfect_left_child p = MerkleModel.perfect_left_child p) /\
+  (forall p, KMerkle.perfect_right_child p = MerkleModel.perfect_right_child p) /\
+  (forall n, KMerkle.complete_root n = MerkleModel.complete_root n) /\
+  (forall i n, KMerkle.complete_parent i n = MerkleModel.complete_parent i n) /\
+  (forall i n, KMerkle.checked_complete_parent i n = MerkleModel.checked_complete_parent i n) /\
+  (forall i n, KMerkle.complete_right_child i n = MerkleModel.complete_right_child i n) /\
+  (forall i n, KMerkle.complete_parent_and_sibling i n = MerkleModel.complete_parent_and_sibling i n) /\
+  (forall i n, KMerkle.is_leaf_index_in_tree i n = Some (MerkleModel.is_leaf_index_in_tree i n)) /\
+  (forall j, KMerkle.leaf_index_to_tree_index j = MerkleModel.leaf_index_to_tree_index j).
+Proof.
+  exact (conj keq_perfect_parent (conj keq_perfect_left_child (conj keq_perfect_right_child
+        (conj keq_complete_root (conj keq_complete_parent (conj keq_checked_complete_parent
+        (conj keq_complete_right_child (conj keq_complete_parent_and_sibling
+        (conj keq_is_leaf_index_in_tree keq_leaf_index_to_tree_index))))))))).
+Qed.
+Print Assumptions C08_kernels_tied.
